@@ -475,6 +475,25 @@ class C13(Prop):
                                   for l in lines[1:]]
         return lines
 
+    def _twins(self, rng):
+        """several wastes that are EQUAL as values (same type, id, content code, clock reading — distinct objects) in one
+        queue, met by partial digests, the emergency / auto digest and autophagy: accounting is per object"""
+        mq = rng.choice([2, 3, 4, 6, 1000])
+        lines = [f"cfg {mq} {rng.choice([mq + 1, 1000, 2, 3])} {rng.choice(RETS)} ssss {rng.choice('bbs')} set"]
+        protos = [f"ingest {rng.choice(TYPES)} {rng.randint(1, 2)} {rng.choice([0, 2, 3, 5, 1])}" for _ in range(2)]
+        for _ in range(rng.randint(3, 9)):
+            r = rng.random()
+            if r < 0.6:
+                lines.append(rng.choice(protos))
+            elif r < 0.8:
+                lines.append(f"digest {rng.choice([1, 1, 2, 'none'])}")
+            elif r < 0.9:
+                lines.append("autophagy")
+            else:
+                lines.append(f"adv {rng.choice([0, 1, 3515625])}")
+        lines.append(rng.choice(["digest none", "digest 1", "autophagy"]))
+        return lines
+
     def _conc(self, rng):
         cfg, (mq, at, ret) = self._cfg(rng)
         if rng.random() < 0.7:       # configurations whose every digester call is visible: the recorded order of
@@ -521,6 +540,8 @@ class C13(Prop):
             elif r < 0.42:
                 yield {"lines": self._foreign_results(rng),
                        "note": "digesters that return values dict.update cannot merge / merges only part of"}
+            elif r < 0.46:
+                yield {"lines": self._twins(rng), "note": "wastes equal as values, distinct as objects"}
             else:
                 yield {"lines": self._history(rng, rng.choice([1, 2, 3, 4, 6, 8, 10, 12, 14])), "note": "random history"}
 
@@ -562,13 +583,22 @@ class C13(Prop):
         c4 = []
         for cfg in ["cfg 2 3 3515625 ssss b set", "cfg 3 2 3515625 ssss b set", "cfg 4 1 3515625 ssss b set",
                     "cfg 8 9 3515625 ssss b set"]:
-            for k in range(1, 4 if tier == "quick" else 6):
+            for k in range(1, 4 if tier == "quick" else 5):
                 for ops in itertools.product(alpha4, repeat=k):
                     c4.append({"lines": [cfg] + [o.format(i=j + 1) for j, o in enumerate(ops)],
                                "note": f"unmergeable digester results, depth {k}"})
-        spaces.append({"name": "all histories of <= 3 (quick) / 5 (thorough) ops over {item whose digester returns a "
+        spaces.append({"name": "all histories of <= 3 (quick) / 4 (thorough) ops over {item whose digester returns a "
                                "half-mergeable / an unmergeable / a good value, sensitive item, digest all, digest 1} on 4 "
                                "configurations (emergency digest, auto-digest, neither)", "cases": c4})
+        # wastes that are equal as values (same line repeated at the same clock reading), distinct as objects
+        alpha5 = ["ingest exp 1 2", "ingest exp 1 0", "digest 1", "digest none", "autophagy", "adv 3515625"]
+        c5 = []
+        for cfg in ["cfg 2 3 3515625 ssss b set", "cfg 4 2 3515625 ssss b set"]:
+            for k in range(2, 4 if tier == "quick" else 5):
+                for ops in itertools.product(alpha5, repeat=k):
+                    c5.append({"lines": [cfg] + list(ops), "note": f"equal wastes, depth {k}"})
+        spaces.append({"name": "all histories of 2..3 (quick) / 2..4 (thorough) ops over {two ingest lines repeated verbatim "
+                               "(equal wastes), digest 1, digest all, autophagy, clock advance} on 2 configurations", "cases": c5})
         if tier != "quick":
             # every schedule prefix of 2 x 2 operations is too many; exhaust the *burst patterns* instead:
             # all 2-thread programs of one op each over {ingest, digest, autophagy} x 64 seeded schedules
@@ -602,6 +632,10 @@ class C13(Prop):
                 return {"c": 1, "seq": w.vf[0], "id": w.vf[1]}          # the daemon's flushed context
             if isinstance(c, dict) and "c" not in c and isinstance(c.get("context"), dict):
                 c = c["context"]
+            if isinstance(c, dict) and "seq" not in c and hasattr(w, "vf"):
+                # a waste the harness built itself: its number is NOT in its content (two `ingest` lines with the same
+                # type, id and content code at the same clock reading are EQUAL as dataclass values, distinct objects)
+                c = dict(c, seq=w.vf[0])
             return c
 
         def note_digester_call():
@@ -746,7 +780,7 @@ class C13(Prop):
         idx = TYPES.index(ty)
         mode = ctx["tox"] if ty == "tox" else ctx["modes"][idx]
         if mode == "s" or ty == "tox":
-            return {"c": c, "seq": seq, "id": i}
+            return {"c": c, "id": i}
         if ty == "mis":
             return {1: {"raw_input": str(seq)}, 2: {"error": str(seq)},
                     3: {"raw_input": str(seq), "error": str(seq)}}.get(c, "not-a-dict" if c == 0 else {})
